@@ -38,6 +38,10 @@ def interp():
         _INTERP = J.Interp(JS_SRC)
         for m in ('utils.js', 'tyrving_score.js', 'qkids_score.js'):
             _INTERP.load(m)
+        # the JavaScript modules are evaluated again before every symbolic path (module-level state of the port must not leak between
+        # paths, exactly as for the python side: symrun/state.py)
+        from symrun import state
+        state.EXTRA_RESET.append(_INTERP.reset_modules)
     return _INTERP
 
 
@@ -46,7 +50,11 @@ def js_func(mod, name):
     f = I.get_member(I.load(mod), name)
     if not isinstance(f, (J.JSFunction, J.Native)):
         raise core.Inconclusive('%s does not export %s' % (mod, name))
-    return lambda *args: I.call(f, J.UNDEF, list(args))
+
+    def call(*args):
+        # resolved at call time: the modules are re-evaluated before every path
+        return I.call(I.get_member(I.load(mod), name), J.UNDEF, list(args))
+    return call
 
 
 # ------------------------------------------------------------------ JavaScript views of the C06 duration proxies
